@@ -54,6 +54,8 @@ var c14sigma = []string{
 	"\xff",         // lone invalid byte
 	"\xed\xa0\x80", // 3-byte encoding of the surrogate code point U+D800 (ill-formed UTF-8)
 	"%",            // formatting directive, should the bytes ever pass through a printf format
+	"&",            // encoding/json escapes it as \u0026 (as it does < and >)
+	"\\u0026",      // the six characters backslash u 0 0 2 6 as DATA: must come back as those six characters
 }
 
 // c14count = number of strings of length <= maxLen over the alphabet.
@@ -1280,7 +1282,7 @@ func (h *c14h) longSequences() {
 
 func verifC14(c *drv.Ctx) {
 	c.R.Rule = "case = (result type, values of its string slots, numeric/optional slots) or (id sequence, logger, channel capacity); " +
-		"string slots range over all strings of length <= 3 (alone), <= 2 (pairs; thorough <= 3) and <= 1 (all together) over the 17-symbol alphabet " +
+		"string slots range over all strings of length <= 3 (alone), <= 2 (pairs; thorough <= 3) and <= 1 (all together) over the 19-symbol alphabet " +
 		"{a \" \\ / LF CR TAB NUL 0x1f 0x7f < e-acute U+2028 U+FFFD 0xff ED-A0-80}; every case is a different input; " +
 		"non-trivial = a varied string contains a symbol other than 'a' or a numeric/optional slot is off its baseline; for sequences: an id repeats"
 	if err := zzref.JSONSelfTest(); err != nil {
